@@ -94,6 +94,9 @@ func c13Gen(seed uint64, tier string) *Plan {
 	p.Horizon = p.Actions[len(p.Actions)-1].At + rng.Dur(time.Second, 10*time.Minute)
 	b.add(Action{At: p.Horizon - time.Millisecond, Kind: "get_alerts"})
 	p.SortActions()
+	if ra := rng.Fork("autoholds"); ra.Bool(0.3) {
+		p.Holds = append(p.Holds, AutoHolds(ra, []string{"mem.Alerts.gcAlerts", "store.Alerts.gcAlerts", "mem.Alerts.gcListeners"}, ra.Range(1, 2), 16, 50*time.Millisecond, 30*time.Second)...)
+	}
 	return p
 }
 
